@@ -211,6 +211,43 @@ def gen_case(rng):
     return {"world": world, "top": top, "topv": topv, "plist": plist, "force": force, "evolve": ops}
 
 
+def gen_shared_case(rng):
+    """directed family: an optional dependency that is declared but cannot be set up, listed BEFORE a required sibling
+    with which it shares a dependency that has dependencies of its own.
+        p5 (top) -> p4;   p4 -> setupOptional(p3), setupRequired(p2);   p3 -> p2 and something missing;   p2 -> p1
+    Table.dependencies descends into p2 only where it meets it first - below p3, which is not set up - so the closure
+    of p4 must still contain p1, reached nowhere else."""
+    P = "envPrepend(PATH, ${PRODUCT_DIR}/bin)"
+    v1, v2, v3, v4, v5 = (rng.choice(setupsim.VERSIONS) for _ in range(5))
+    kind_top = rng.choice(["setupRequired", "setupRequired", "setupOptional"])
+    missing = rng.choice(["setupRequired(zz)", "setupRequired(zz 1.0)", "setupRequired(p1 9.9 [>= 9.0])"])
+    p3_lines = [P, "setupRequired(p2)", missing]
+    if rng.random() < 0.5:
+        p3_lines = [P, missing, "setupRequired(p2)"]
+    p2_lines = [P, "setupRequired(p1%s)" % rng.choice(["", " " + v1])]
+    if rng.random() < 0.3:
+        p2_lines.append("envSet(P2_HOME, ${PRODUCT_DIR}/home)")
+    p4_lines = [P, "setupOptional(p3%s)" % rng.choice(["", " " + v3]), "setupRequired(p2%s)" % rng.choice(["", " " + v2])]
+    if rng.random() < 0.3:
+        p4_lines.insert(2, "envAppend(LD_LIBRARY_PATH, ${PRODUCT_DIR}/lib)")
+    prods = {"p1": {v1: [P]}, "p2": {v2: p2_lines}, "p3": {v3: p3_lines}, "p4": {v4: p4_lines},
+             "p5": {v5: decorate(rng, [P, "%s(p4%s)" % (kind_top, rng.choice(["", " " + v4]))])}}
+    if rng.random() < 0.4:                  # a second, unrelated version of the shared product's dependency
+        other = rng.choice([v for v in setupsim.VERSIONS if v != v1])
+        prods["p1"][other] = [P]
+    world = {"root": "stack", "products": prods,
+             "current": {"p1": v1, "p2": v2, "p3": v3, "p4": v4, "p5": v5}}
+    ops = []
+    for n in sorted(prods):
+        r = rng.random()
+        if r < 0.5:
+            ops.append({"op": "declare", "name": n, "version": "4.0", "lines": [P], "current": rng.random() < 0.8})
+        elif r < 0.6:
+            ops.append({"op": "uncurrent", "name": n})
+    rng.shuffle(ops)
+    return {"world": world, "top": "p5", "topv": v5, "plist": {}, "force": False, "evolve": ops}
+
+
 # ------------------------------------------------------------------ implementation (runs in a forked child)
 
 def _fresh_eups(eups, **kw):
@@ -722,7 +759,9 @@ def setup_ctx(ctx):
     ctx.rule = ("random one-stack worlds of 3-5 products x 1-3 versions (harness/setupsim.py: bare / versioned / "
                 "expression / -j, required and optional dependencies, diamonds with conflicting versions, products "
                 "without a current version); the top table is spread over several setup blocks with comments, blank "
-                "lines, brace blocks, relative versions, unknown products; productList overrides (12%) and --force "
+                "lines, brace blocks, relative versions, unknown products; one case in 16 from a directed family (an optional "
+                "dependency that cannot be set up, listed before a required sibling sharing a dependency that has its own); "
+                "productList overrides (12%) and --force "
                 "(10%); the database then gains newer versions and current moves; a case is non-trivial when the build "
                 "succeeded and set up at least two products; distinct = distinct (tables, top product, productList)")
     ctx.trusted_base = common.COMMON_TRUSTED + [
@@ -743,8 +782,8 @@ def run(ctx):
     ctx.check_theorems()
     cases = corpus_cases()
     n = ctx.size(640, 5000)
-    for _ in range(n):
-        cases.append(gen_case(ctx.rng))
+    for k in range(n):
+        cases.append(gen_shared_case(ctx.rng) if k % 16 == 7 else gen_case(ctx.rng))
     for c in cases[:2]:
         ctx.sample({"top": c["top"], "topv": c["topv"], "table": c["world"]["products"][c["top"]][c["topv"]]})
     step = 2000
